@@ -13,9 +13,9 @@ func init() {
 	register(&propertyDef{
 		id:    "C16",
 		title: "preparation is deterministic and insensitive to naming and ordering",
-		rules: []ruleFunc{c16R1, c16R2, c16R3, c16R4},
+		rules: []ruleFunc{c16R1, c16R2, c16R3, c16R4, c16R5},
 		decided: "every iteration over a Go map (range over a map, or over reflect.Value.MapKeys()) in the parse and prepare paths has order-insensitive effects: no outer variable is overwritten with a value derived from the current key/value, no outer slice is appended to without a later sort, no non-error value derived from the current element is returned from inside the loop — except under a len==1 guard or a tabled reason (R1); " +
-			"no ambient nondeterminism (time, random numbers, environment, goroutines) is used in these paths outside the tabled generated-identifier and documented built-in functions (R2); every textual step-path pattern matches all step ids the workflow schema admits and captures exactly the step path (R3, regular-language inclusion). Shared: dependency loops never return early with success, so the graph does not depend on which sibling key was walked first (R4 = C02.R2).",
+			"no ambient nondeterminism (time, random numbers, environment, goroutines) is used in these paths outside the tabled generated-identifier and documented built-in functions (R2); every textual step-path pattern matches all step ids the workflow schema admits and captures exactly the step path (R3, regular-language inclusion). Shared: dependency loops never return early with success, so the graph does not depend on which sibling key was walked first (R4 = C02.R2); nothing is remembered between preparations (R5 = C10.R5).",
 		notDecided: "invariance under consistent renaming of steps beyond the textual patterns of R3; equality of two preparations (needs runs); determinism of dependencies (dgraph, pluginsdk).",
 	})
 }
@@ -226,6 +226,43 @@ func (c *Ctx) orderSensitiveEffects(ml mapLoop) []string {
 			}
 		}
 	}
+	// early exits: leaving the loop before the map is exhausted — by `break` or by a return that carries no error — makes
+	// the set of elements that were processed depend on the iteration order (unless what decides the exit is a property
+	// of the current element alone and the loop has no other effect, i.e. a pure search)
+	for b := range li.Blocks {
+		if b == li.Header {
+			continue
+		}
+		for _, s := range b.Succs {
+			if li.Blocks[s] || (li.Body != nil && li.Body.Dominates(s) && s != li.Header) && len(s.Succs) > 0 {
+				continue
+			}
+			// s is outside the natural loop: a break target or a return block
+			if len(s.Instrs) > 0 {
+				if ret, ok := s.Instrs[len(s.Instrs)-1].(*ssa.Return); ok && li.Body != nil && li.Body.Dominates(s) {
+					res := retResults(ret)
+					if len(res) > 0 && res[len(res)-1].Type().String() == "error" && !isNilConst(res[len(res)-1]) {
+						continue // error exit: the verdict is an error whichever element raised it
+					}
+					if _, isPanic := s.Instrs[len(s.Instrs)-1].(*ssa.Panic); isPanic {
+						continue
+					}
+					if c.exitDependsOnlyOnElement(b, ml) {
+						continue
+					}
+					out = append(out, "returns without an error from inside the loop at "+c.instrPos(ret)+": the elements not yet visited are skipped")
+					continue
+				}
+			}
+			if li.Body != nil && li.Body.Dominates(s) {
+				continue
+			}
+			if c.exitDependsOnlyOnElement(b, ml) {
+				continue
+			}
+			out = append(out, "leaves the loop early (break) at "+c.blockPos(b)+": the elements not yet visited are skipped")
+		}
+	}
 	for b := range region {
 		for _, in := range b.Instrs {
 			switch x := in.(type) {
@@ -381,4 +418,35 @@ func c16R2(c *Ctx) {
 	}
 	c.minCount(rule, "parse/prepare functions scanned", n, 60)
 	c.ok(rule, "scanned", "-", fmt.Sprintf("%d functions scanned", n), true)
+}
+
+// exitDependsOnlyOnElement: the branch that leaves the loop from block b tests only the current key/value (a search for
+// the element with a given property): whichever order the map is walked in, the same element ends the search.
+func (c *Ctx) exitDependsOnlyOnElement(b *ssa.BasicBlock, ml mapLoop) bool {
+	if len(b.Instrs) == 0 {
+		return false
+	}
+	ifi, ok := b.Instrs[len(b.Instrs)-1].(*ssa.If)
+	if !ok {
+		// unconditional jump out of the loop: look at the branch that led here
+		if len(b.Preds) == 1 {
+			return c.exitDependsOnlyOnElement(b.Preds[0], ml)
+		}
+		return false
+	}
+	return derivesFromElem(ifi.Cond, ml) && !condReadsOuterMutable(ifi.Cond, ml)
+}
+
+// condReadsOuterMutable: the condition involves a header phi of the loop (a counter or accumulator carried across
+// iterations), i.e. state that depends on how many / which elements were visited before.
+func condReadsOuterMutable(v ssa.Value, ml mapLoop) bool {
+	found := false
+	derivesFrom(v, func(x ssa.Value) bool {
+		if phi, ok := x.(*ssa.Phi); ok && phi.Block() == ml.li.Header {
+			found = true
+			return true
+		}
+		return false
+	})
+	return found
 }
